@@ -211,8 +211,26 @@ func checkC20(ctx *core.Ctx, rep *core.Report) {
 		}
 		rep.Inc("states")
 		rep.Inc("transitions")
+		alone := map[string]bool{}
 		for _, v := range c20Eval(o, reg, pre, rep) {
+			alone[v[0]] = true
 			rep.Violate(v[0], v[1]+" ["+what+"]", map[string]interface{}{"kind": "cert", "der_hex": hex.EncodeToString(b), "pre": keysTrue(pre), "what": what})
+		}
+		if pre["full-run"] {
+			// "whenever both run on the same content" includes the ordinary case in which both run as part of ONE full lint
+			// run, with every other lint of the registry running before, between and after them on the same object
+			o2, err := zl.Parse(seeds.Cert, b)
+			if err != nil {
+				return
+			}
+			rep.Inc("full_registry_runs")
+			for _, v := range c20Eval(o2, lint.GlobalRegistry(), pre, nil) {
+				if alone[v[0]] {
+					continue // the same contradiction the twins show on their own: reported (or known) under its own key
+				}
+				rep.Violate(v[0]+"|in a full run", v[1]+" — in one run of the whole registry (the twins agree when they run without the other lints) ["+what+"]",
+					map[string]interface{}{"kind": "cert", "der_hex": hex.EncodeToString(b), "pre": keysTrue(pre), "what": what, "registry": "global"})
+			}
 		}
 	}
 	nb, na := date(2024, 3, 1), date(2024, 9, 1)
@@ -243,6 +261,64 @@ func checkC20(ctx *core.Ctx, rep *core.Report) {
 		s.Exts = append(s.Exts, certgen.IAN(s2...))
 		run(s.Build(), map[string]bool{"san=ian": true, "same-cert": true}, fmt.Sprintf("SAN=IAN=%v", names))
 		rep.Sample(2, map[string]interface{}{"space": "san=ian", "names": names})
+	}
+
+	// (A') … and every SAN the repository's own test certificates carry, mirrored into the IAN; (B') every subject DN
+	// they carry, mirrored into the issuer — the contents the twin lints were written (and tested, one side at a time) for
+	{
+		seenSAN, seenDN := map[string]bool{}, map[string]bool{}
+		corpus := seeds.Load()
+		for ci := range corpus {
+			if corpus[ci].Kind != seeds.Cert {
+				continue
+			}
+			root, err := der.Parse(corpus[ci].DER)
+			if err != nil {
+				continue
+			}
+			if sn := sanNames(root); sn != nil && len(sn.Children) > 0 && len(sn.Children) <= 12 {
+				k := hex.EncodeToString(sn.Clone().Encode())
+				if !seenSAN[k] {
+					seenSAN[k] = true
+					idx++
+					if ctx.Mine(idx) {
+						var s1, s2 []*der.Node
+						for _, c := range sn.Children {
+							s1 = append(s1, c.Clone())
+							s2 = append(s2, c.Clone())
+						}
+						sp := tlsLeafSpec(nb, na)
+						sp.Exts[len(sp.Exts)-1] = certgen.SAN(false, s1...)
+						sp.Exts = append(sp.Exts, certgen.IAN(s2...))
+						run(sp.Build(), map[string]bool{"san=ian": true, "same-cert": true, "full-run": true}, "SAN=IAN= the SAN of corpus file "+corpus[ci].Name)
+						rep.Inc("corpus_sans_mirrored")
+					}
+				}
+			}
+			// tbsCertificate: [0] version?, serial, signature, issuer, validity, subject
+			if len(root.Children) > 0 {
+				tbs := root.Children[0]
+				off := 0
+				if len(tbs.Children) > 0 && tbs.Children[0].Class == 2 {
+					off = 1
+				}
+				if len(tbs.Children) > off+4 {
+					sub := tbs.Children[off+4]
+					k := hex.EncodeToString(sub.Clone().Encode())
+					if sub.Constructed && len(sub.Children) > 0 && !seenDN[k] {
+						seenDN[k] = true
+						idx++
+						if ctx.Mine(idx) {
+							sp := tlsLeafSpec(nb, na)
+							sp.Subject, sp.Issuer = sub.Clone(), sub.Clone()
+							// (the signature is not judged and the template is not a CA: a self-issued leaf, which the pair lints do not mind)
+							run(sp.Build(), map[string]bool{"subject=issuer": true, "same-cert": true, "full-run": true}, "subject=issuer= the subject of corpus file "+corpus[ci].Name)
+							rep.Inc("corpus_subjects_mirrored")
+						}
+					}
+				}
+			}
+		}
 	}
 
 	// (B) issuer DN = subject DN over a DN-atom alphabet
@@ -318,7 +394,7 @@ func checkC20(ctx *core.Ctx, rep *core.Report) {
 				case "last":
 					cn = sans[len(sans)-1]
 				}
-				run(c18Cert(cn, sans, nb, 0), map[string]bool{"cn-in-san": true, "same-cert": true}, fmt.Sprintf("CN=%q SAN=%q", cn, sans))
+				run(c18Cert(cn, sans, nb, 0), map[string]bool{"cn-in-san": true, "same-cert": true, "full-run": true}, fmt.Sprintf("CN=%q SAN=%q", cn, sans))
 				// list length as an axis of its own: the same names inside a SAN of 3, 5 and 9 entries (compliant fillers
 				// before or after) — slices grown by append have spare capacity at exactly these lengths, and code that
 				// appends to / filters a shared slice behaves differently there
@@ -332,8 +408,8 @@ func checkC20(ctx *core.Ctx, rep *core.Report) {
 					}
 					after := append(append([]string{}, sans...), fill...)
 					before := append(append([]string{}, fill...), sans...)
-					run(c18Cert(cn, after, nb, 0), map[string]bool{"cn-in-san": true, "same-cert": true}, fmt.Sprintf("CN=%q SAN=%q", cn, after))
-					run(c18Cert(cn, before, nb, 0), map[string]bool{"cn-in-san": true, "same-cert": true}, fmt.Sprintf("CN=%q SAN=%q", cn, before))
+					run(c18Cert(cn, after, nb, 0), map[string]bool{"cn-in-san": true, "same-cert": true, "full-run": true}, fmt.Sprintf("CN=%q SAN=%q", cn, after))
+					run(c18Cert(cn, before, nb, 0), map[string]bool{"cn-in-san": true, "same-cert": true, "full-run": true}, fmt.Sprintf("CN=%q SAN=%q", cn, before))
 				}
 			}
 		}
@@ -351,7 +427,7 @@ func checkC20(ctx *core.Ctx, rep *core.Report) {
 				}
 				sans := []string{dnsAtoms[i], dnsAtoms[k], dnsAtoms[j]}
 				for _, cn := range []string{"", sans[0], sans[2]} {
-					run(c18Cert(cn, sans, nb, 0), map[string]bool{"cn-in-san": true, "same-cert": true}, fmt.Sprintf("CN=%q SAN=%q", cn, sans))
+					run(c18Cert(cn, sans, nb, 0), map[string]bool{"cn-in-san": true, "same-cert": true, "full-run": true}, fmt.Sprintf("CN=%q SAN=%q", cn, sans))
 				}
 			}
 		}
@@ -502,6 +578,9 @@ func replayC20(rp map[string]interface{}) (string, error) {
 	reg, err := c20Registry()
 	if err != nil {
 		return "", err
+	}
+	if r, _ := rp["registry"].(string); r == "global" {
+		reg = lint.GlobalRegistry()
 	}
 	if bad := c20Eval(st.Obj, reg, pre, nil); len(bad) > 0 {
 		return bad[0][0] + ": " + bad[0][1], nil
